@@ -203,6 +203,17 @@ def run_impl(inp, work):
                         strs(h2i.attrs['units']) == out['write']['units'])}
                 else:
                     out['write']['again'] = {'err': r2[1]}
+                # ... and once more under the SAME names with other values (a re-run after re-calibration): refused, or
+                # what comes back holds the NEW values - never the old data under the new description
+                shifted = [Dimension(d.name, d.units, np.asarray(d.values, dtype=np.float64) + 1.0) for d in dobjs]
+                with quiet():
+                    r3 = call(write_ind_val_dsets, parent, shifted if isinstance(dobjs, list) else tuple(shifted),
+                              is_spectral=inp['spec'], slow_to_fast=inp['s2f'], **kw)
+                if r3[0] == 'ok':
+                    v3 = r3[1][1][()] if inp['spec'] else r3[1][1][()].T
+                    out['write']['rewrite'] = {'new_values': bool(np.array_equal(v3, np.asarray(val, dtype=np.float64) + 1.0))}
+                else:
+                    out['write']['rewrite'] = {'err': r3[1]}
         else:
             out['write'] = {'err': r[1]}
     return out
@@ -266,6 +277,9 @@ def oracle(inp, obs):
         if 'again' in w and ('err' in w['again'] or w['again']['labels'] != w['labels'] or not w['again']['same']):
             fails.append('write-repeat: writing the same sequence of dimensions a second time stored %s, the first time %s'
                          % (w['again'].get('labels', w['again'].get('err')), w['labels']))
+        if w.get('rewrite', {}).get('new_values') is False:
+            fails.append('write-rewrite: a second write under the same names returned datasets that do not hold the values '
+                         'of the dimensions it was given')
         base = 'Spectroscopic' if inp['spec'] else 'Position'
         if inp.get('form', {}).get('base_name'):
             base = inp['form']['base_name'].rstrip('_')
